@@ -11,6 +11,7 @@ From stdpp Require Import gmap.
 From Coq Require Import ZArith NArith List Bool Lia.
 From Synnax Require Import Common.Telem Common.TelemProofs
   Cesium.Domain Cesium.DomainProofs Cesium.DomainInv Monitors.Mon_C03 Monitors.Mon_C03_Sound.
+From Synnax Require Common.Telem Common.TelemSrc.
 Import ListNotations.
 Local Open Scope Z_scope.
 
@@ -360,3 +361,22 @@ Proof.
   split; [|split]; [|vm_compute; reflexivity|vm_compute; reflexivity].
   apply legal_runb_sound. vm_compute. reflexivity.
 Qed.
+
+(* ---- tie to the source by translation: the interval algebra (x/go/telem TimeRange / TimeStamp, x/go/clamp) that the
+   cesium models are written over (Common/Telem.v) is EQUAL to the Gallina that translator/go2coq regenerates from
+   the Go source on every run (Generated/Src_Telem.v; proofs in Common/TelemSrc.v). *)
+Theorem C03_interval_algebra_from_source :
+  (forall tr ts, TelemSrc.S.TimeRange_ContainsStamp (TelemSrc.src tr) ts = Telem.contains_stamp tr ts) /\
+  (forall tr rng, TelemSrc.S.TimeRange_ContainsRange (TelemSrc.src tr) (TelemSrc.src rng) = Telem.contains_range tr rng) /\
+  (forall tr rng, TelemSrc.S.TimeRange_OverlapsWith (TelemSrc.src tr) (TelemSrc.src rng) = Telem.overlaps_with tr rng) /\
+  (forall tr b, TelemSrc.S.TimeRange_BoundBy (TelemSrc.src tr) (TelemSrc.src b) = TelemSrc.src (Telem.bound_by tr b)) /\
+  (forall tr, TelemSrc.S.TimeRange_MakeValid (TelemSrc.src tr) = TelemSrc.src (Telem.tr_make_valid tr)) /\
+  (forall tr, TelemSrc.S.TimeRange_Span (TelemSrc.src tr) = Telem.tr_span tr) /\
+  (forall tr rng, TelemSrc.S.TimeRange_Intersection (TelemSrc.src tr) (TelemSrc.src rng) =
+                  TelemSrc.src (Telem.tr_intersection tr rng)) /\
+  (forall tr o, TelemSrc.S.TimeRange_Union (TelemSrc.src tr) (TelemSrc.src o) = TelemSrc.src (Telem.tr_union tr o)) /\
+  (forall ts span, TelemSrc.int64 ts -> TelemSrc.int64 span ->
+                   TelemSrc.S.TimeStamp_SpanRange ts span = TelemSrc.src (Telem.ts_span_range ts span)) /\
+  (TelemSrc.S.TimeStampMin = Telem.ts_min /\ TelemSrc.S.TimeStampMax = Telem.ts_max).
+Proof. exact TelemSrc.telem_from_source. Qed.
+Print Assumptions C03_interval_algebra_from_source.
